@@ -252,11 +252,23 @@ def call_api(es, conn, case) -> Dict[str, Any]:
 
 
 def execute(case, script):
+    """Returns (ctrl, conn, handles, deliverer, error); error = (fingerprint suffix, text) if the call or flush failed."""
     ctrl, conn, es = make_world(case)
     d = Deliverer(ctrl, case, script)
-    handles = call_api(es, conn, case)
-    conn.flush()
-    return ctrl, conn, handles, d
+    handles: Dict[str, Any] = {}
+    err = None
+    try:
+        handles = call_api(es, conn, case)
+        conn.flush()
+    except simctl.Blocked as exc:
+        err = ("flush-blocked", f"the flush cannot complete: {exc}")
+    except simctl.Horizon as exc:
+        err = ("flush-diverges", f"the flush does not terminate: {exc}")
+    except CheckBroken:
+        raise
+    except Exception as exc:  # noqa
+        err = ("raises:" + type(exc).__name__, f"documented call fails: {type(exc).__name__}: {exc}")
+    return ctrl, conn, handles, d, err
 
 
 def response(layout: str, values: List[Any]):
@@ -409,17 +421,11 @@ def run_request_case(case, part) -> None:
     fp = f"requests/{T}/{role}/"
     part["evals"] += 1
     part["distinct"] += 1
-    try:
-        ctrl, conn, handles, d = execute(case, script_requests)
-    except simctl.Blocked as exc:
-        add_violation(part, fp + "flush-blocked", f"the flush cannot complete: {exc}", case)
-        return
-    except simctl.Horizon as exc:
-        add_violation(part, fp + "flush-diverges", f"the flush does not terminate: {exc}", case)
-        return
-    except Exception as exc:  # noqa
-        add_violation(part, fp + "raises:" + type(exc).__name__, f"documented call fails: {type(exc).__name__}: {exc}", case)
-        return
+    ctrl, conn, handles, d, err = execute(case, script_requests)
+    if err is not None:
+        # still judge what reached the stack: it usually names the cause
+        add_violation(part, fp + err[0], err[1], case, {"requests": [repr(r) for r in ctrl.stack.requests],
+                                                       "recvs": ctrl.stack.recvs})
     looped = case["kwargs"].get("min_fidelity_all_at_end") is not None
     number = case["kwargs"].get("number", 1)
     stack = ctrl.stack
@@ -456,6 +462,8 @@ def run_request_case(case, part) -> None:
                 if not _plain_eq(got[k], want[k]):
                     add_violation(part, fp + f, f"executor registered {f} = {got[k]!r} for the receive, expected {want[k]!r}",
                                   case, {"registered": list(got), "expected": list(want)})
+    if err is not None:
+        return
     if not looped and (len(d.delivered) != number or d.queue):
         add_violation(part, fp + "pairs-consumed", f"{len(d.delivered)} pair(s) were awaited, {number} expected", case)
     if looped and len(d.delivered) < number:
@@ -508,7 +516,7 @@ def meas_specs(T: str, level: str) -> List[Dict[str, Any]]:
     """Measurement specifications for M (local and remote) / R (local only).  level: core | sweep | cube2"""
     sides = ["local", "remote"] if T == "M" else ["local"]
     bases = [None] + live_names("EprMeasBasis")
-    rbs = [None] + live_names("RandomBasis")
+    rbs = [None] + sorted(live_names("RandomBasis"), key=lambda n: n == "NONE")     # explicit NONE last
     for b in bases[1:]:
         if b not in BASIS_ROT:
             raise CheckBroken(f"EprMeasBasis.{b} unknown to the C11 table")
@@ -601,10 +609,11 @@ def request_cases(T: str, role: str, api: str, tier: str) -> List[Dict[str, Any]
                 for s in core:
                     cases.append(mk(b, s))
             if not deprecated or T == "M":
-                for b in (full if thorough else few):
+                wide = thorough and not deprecated
+                for b in (full if wide else few):
                     for s in meas_specs(T, "sweep"):
                         cases.append(mk(b, s))
-                for b in (full if thorough else few[:2]):
+                for b in (full if wide else few[:2]):
                     for s in meas_specs(T, "cube2"):
                         cases.append(mk(b, s))
             if api == "create_rsp":
@@ -702,16 +711,9 @@ def run_result_case(case, part) -> None:
     fp = f"results/{T}/{role}/"
     part["evals"] += 1
     part["distinct"] += 1
-    try:
-        ctrl, conn, h, d = execute(case, script_results)
-    except simctl.Blocked as exc:
-        add_violation(part, fp + "flush-blocked", f"the flush cannot complete: {exc}", case)
-        return
-    except simctl.Horizon as exc:
-        add_violation(part, fp + "flush-diverges", f"the flush does not terminate: {exc}", case)
-        return
-    except Exception as exc:  # noqa
-        add_violation(part, fp + "raises:" + type(exc).__name__, f"documented call fails: {type(exc).__name__}: {exc}", case)
+    ctrl, conn, h, d, err = execute(case, script_results)
+    if err is not None:
+        add_violation(part, fp + err[0], err[1], case)
         return
     number = case["kwargs"].get("number", 1)
     count(part, f"res/{T}/{role}")
@@ -903,8 +905,9 @@ def run(ctx):
             for api in apis:
                 n = len(cases_of(part_name, T, role, api, ctx.tier))
                 sizes[f"{part_name}/{T}/{role}/{api}"] = n
-                for lo in range(0, n, CHUNK):
-                    shards.append((part_name, T, role, api, ctx.tier, lo, min(n, lo + CHUNK)))
+                chunk = max(CHUNK, n // 64 + 1)      # every shard regenerates its class's case list: keep shards few
+                for lo in range(0, n, chunk):
+                    shards.append((part_name, T, role, api, ctx.tier, lo, min(n, lo + chunk)))
     shards.sort(key=lambda s: -(s[6] - s[5]))
     ctx.pmap(shard_fn, shards)
     ctx.extra["cases_per_class"] = sizes
